@@ -16,7 +16,10 @@ def gen(rng, n):
     out = []
     for i in range(n):
         g = G.GenRun(rng, is_async=(i % 4 == 3), faults=0.0, awaits=0.3)
-        out.append(g.case())
+        c = g.case()
+        while not G.small_enough(c):
+            c = g.case()
+        out.append(c)
     return out
 
 
